@@ -551,6 +551,8 @@ def t_templates(tier):
     T.append(("def tfun(a: Tuple[{t0}, {t1}]) -> Tuple[{t0}, {t1}]:\n    b = a\n    return b\n", {"t0": ["bool", "Qint[2]"], "t1": ["bool", "Qint[2]"]}))
     T.append(("def tfun(a: Tuple[{t0}, {t1}], c: bool) -> Tuple[{t0}, {t1}]:\n    b = ({x}, {y})\n    return {r}\n",
               {"t0": ["bool"], "t1": ["bool"], "x": ["a[1]", "c", "not a[0]"], "y": ["a[0]", "c and a[1]"], "r": ["b", "(b if c else a)", "(b[1], b[0])"]}))
+    T.append(("def tfun(a: Tuple[{t0}, {t1}], c: bool) -> {t1}:\n    b = a\n    return b[1]\n", {"t0": ["bool", "Qint[2]"], "t1": ["bool", "Qint[2]"]}))
+    T.append(("def tfun(a: Tuple[Tuple[bool, Qint[2]], Qint[2]]) -> Qint[2]:\n    b = a\n    c = b[0]\n    return c[1] + b[1]\n", {}))
     T.append(("def tfun(a: Qlist[bool, 2]) -> Qlist[bool, 2]:\n    {body}\n", {"body": ["return a", "return [a[1], a[0]]", "return [a[0], a[0]]", "b = a\n    return b", "return [not a[0], a[0] and a[1]]"]}))
     T.append(("def tfun(a: Qmatrix[bool, 2, 2]) -> Qmatrix[bool, 2, 2]:\n    {body}\n",
               {"body": ["return a", "return [[a[0][0], a[1][0]], [a[0][1], a[1][1]]]", "return [[a[1][1], a[1][0]], [a[0][1], a[0][0]]]"]}))
